@@ -1,1 +1,61 @@
-From TL Require Import Base.Base.
+(* C07 - Backquote builds exactly the specified structure, freshly.          *)
+(* Statements only; the proofs are in Proofs/Backquote.v.                     *)
+From TL Require Import Base.Base Model.Reader Model.Printer Model.Store Model.Eval Model.Init.
+From TL Require Import Proofs.Lists Proofs.Backquote.
+Local Open Scope list_scope.
+
+(* A template list `(e1 ... en . tl)` is evaluated as a fold from left to    *)
+(* right over its elements: `,x` evaluates x once and pushes the value, `,@x` *)
+(* evaluates x once and appends the value, anything else is evaluated as a    *)
+(* nested template; then the tail (nil, an atom after a dot, or `. ,x`).      *)
+Theorem C07_left_to_right_fold : forall rec es tl s, es <> [] -> consp tl = false ->
+  eval_bq rec (of_list es tl) s = bq_fold rec es tl Nil s.
+Proof. exact eval_bq_is_fold. Qed.
+
+Theorem C07_unquote_is_eval : forall rec v, eval_bq rec (Unq v) = ev rec v.
+Proof. exact eval_bq_unquote. Qed.
+Theorem C07_literal_atoms : forall rec o, consp o = false ->
+  (forall v, o <> Unq v) -> (forall v, o <> Splice v) -> (forall v, o <> Quote v) ->
+  eval_bq rec o = ret o.
+Proof. exact eval_bq_atom. Qed.
+Theorem C07_under_quote_marks : forall rec v,
+  eval_bq rec (Quote v) = bind (eval_bq rec v) (fun r => ret (Quote r)).
+Proof. exact eval_bq_nested_quote. Qed.
+
+(* The value: with [val] the value of each unquoted expression and [sub] the  *)
+(* value of each nested template, the result is the list/append construction  *)
+(*   (append seg1 ... segn tail)                                               *)
+(* where the segment of `,x` is (list x), of `,@x` the elements of x (a        *)
+(* proper list), of anything else (list sub); the dotted tail `. ,x` is x.     *)
+Theorem C07_list_append_construction : forall rec val sub,
+  (forall v s, rec (TEval v) s = (Ok (val v), s)) ->
+  forall es tl xs s,
+  Forall (wf_elem rec val sub) es -> consp tl = false -> (forall v, tl <> Splice v) ->
+  (xs ++ List.concat (map (seg val sub) es) <> [] \/ listp (tail_value val tl) = true) ->
+  es <> [] ->
+  bq_fold rec es tl (of_list xs Nil) s =
+  (Ok (of_list (xs ++ List.concat (map (seg val sub) es)) (tail_value val tl)), s).
+Proof. exact bq_fold_value. Qed.
+
+Print Assumptions C07_left_to_right_fold. Print Assumptions C07_unquote_is_eval.
+Print Assumptions C07_literal_atoms. Print Assumptions C07_under_quote_marks.
+Print Assumptions C07_list_append_construction.
+
+(* non-vacuity, through the interpreter: values, order of evaluation (tick   *)
+(* log, most recent first), dotted tail, nested quote, splice of nil           *)
+Definition F0 : fops :=
+  {| f_add := fun _ _ => 0%Z; f_sub := fun _ _ => 0%Z; f_mul := fun _ _ => 0%Z;
+     f_div := fun _ _ => 0%Z; f_rem := fun _ _ => 0%Z; f_pow := fun _ _ => 0%Z;
+     f_max := fun _ _ => 0%Z; f_min := fun _ _ => 0%Z; f_of_int := fun z => z;
+     f_to_int := fun z => z; f_round := fun z => z; f_trunc := fun z => z;
+     f_lt := Z.ltb; f_le := Z.leb; f_eq := Z.eqb; f_is_finite := fun _ => true;
+     f_to_dec := fun _ => []; f_of_dec := fun _ => None |}.
+Definition run0 (p : string) :=
+  let '(r, s) := eval_string F0 80 (s2t p) (init_state [] None) in (r, map fst (log s)).
+Example C07_ex :
+  run0 "(setq l '(2 3)) `(a ,(tick 1 1) ,@(tick 2 l) (b ,(tick 3 4)) ',(tick 4 5) ,@nil . ,(tick 5 6))"
+  = (fst (run0 "'(a 1 2 3 (b 4) '5 . 6)"), [5; 4; 3; 2; 1]%Z).
+Proof. vm_compute. reflexivity. Qed.
+
+Check C07_left_to_right_fold : forall rec es tl s, es <> [] -> consp tl = false ->
+  eval_bq rec (of_list es tl) s = bq_fold rec es tl Nil s.
